@@ -31,4 +31,5 @@ CUR=H19; sel "$@" && run H19-fluid-strainrate-times-half-over-mu C13
 CUR=H20; sel "$@" && run H20-dynamic-pressure-equivalent-formula C18 C05 C03
 CUR=H22; sel "$@" && run H22-converting-ctor-functional-cast C16
 CUR=H23; sel "$@" && run H23-extra-correct-spelling C08
+CUR=H24; sel "$@" && run H24-fahrenheit-times-five-ninths-in-type C01
 git -C /repo status --short | grep -v '^??'
